@@ -275,6 +275,9 @@ def configs(tier):
         esc(2, 2, 0, 1, 2, 1, single=True)
         # single-dimension mode with TWO areas per round (a multi-dimensional split and an extend in the same round, either order)
         esc(2, 2, 0, 1, 2, 2, single=True, dimsets=[[0, 1]])
+        # runs that start with lmax == lmin
+        esc(2, 1, 0, 1, 3, 1)
+        esc(3, 1, 0, 1, 2, 1)
         esc(2, 2, 0, 1, 2, 1, a=[-1.0, 2.0], b=[3.0, 4.0])
         cellc(2, 1, 3, 1)
         cellc(2, 1, 2, 2)
